@@ -15,6 +15,7 @@
 #include "pbt.h"
 #include "mbgen.h"
 #include "forcegen.h"
+#include <malloc.h>
 using namespace SimTK;
 namespace fg = forcegen;
 
@@ -96,7 +97,7 @@ struct Harness {
         // is entirely zero (e.g. a Ball constraint at a point on a Pin axis, or a Rod whose bodies move only through locked mobilizers) the
         // multiplier solve has rank 0 and returns uninitialised memory (FactorQTZ, C24 finding qtz-rank0-solve-uninitialized), so multipliers
         // are not a function of the state at all. Site: >= 1 enabled constraint equation and max |G(:, free u)| <= 1e-13. Excluded: the
-        // multipliers group only while they are finite garbage; all groups downstream of a non-finite garbage multiplier.
+        // multipliers and everything computed from them (udot, qdotdot, body accelerations, udoterr) at such a query.
         bool skipMult = false;
         if (s.getMultipliers().size() > 0) {
             Matrix G; m->matter.calcG(s, G); Real mx = 0;
@@ -105,8 +106,8 @@ struct Harness {
             if (mx <= 1e-13) { ctx.label("site:rank0-constraints"); if (ctx.known("null-constraint-multipliers-uninitialized")) { skipMult = true; ctx.label("excluded:null-constraint-multipliers-uninitialized"); } }
         }
         Results A = collect(s), B = collect(f);
-        bool garbageNonFinite = false;
-        if (skipMult) { for (int i = 0; i < s.getMultipliers().size(); ++i) if (!std::isfinite(s.getMultipliers()[i]) || !std::isfinite(f.getMultipliers()[i])) garbageNonFinite = true; }
+        // garbage multipliers (up to 1e300) times G^T cancel only up to rounding in the constraint body forces: every acceleration-level result is affected
+        const bool garbageNonFinite = skipMult;
         // Known finding disabled-force-zdot-stale: the zdot entry of the z variable (dissipated energy) of a DISABLED LinearBushing is not
         // written by realize(Acceleration) (disabled elements are skipped), so State::getZDot() keeps a stale or uninitialised value there.
         // Site (input): zdot entries of disabled LinearBushing elements (z variables are allocated in element order). Excluded: those entries.
@@ -294,19 +295,38 @@ void directedDisabledBushingZDot(pbt::Ctx& ctx) {
     State s = sys.realizeTopology(); pin.setU(s, 2.0); sys.realize(s, Stage::Acceleration);      // enabled: zdot = power dissipation = c*qdot^2 = 4
     Real z1 = s.getZDot()[0];
     bush.disable(s); sys.realize(s, Stage::Acceleration);
-    State f = sys.getDefaultState(); pin.setU(f, 2.0); bush.disable(f); sys.realize(f, Stage::Velocity); f.updZDot()[0] = 123.0; sys.realize(f, Stage::Acceleration);   // same values; cache slot pre-poisoned
+    State f = sys.getDefaultState(); pin.setU(f, 2.0); bush.disable(f); f.updZDot()[0] = 123.0; sys.realize(f, Stage::Acceleration);   // same values; cache slot pre-poisoned
     ctx.desc << "Pin(u=2) + LinearBushing(k=1,c=1): zdot enabled = " << z1 << "; history State after disable + realize: zdot = " << s.getZDot()[0] << "; fresh State (disabled, cache slot pre-set to 123): zdot = " << f.getZDot()[0] << "\n";
     ctx.check(s.getZDot()[0] == f.getZDot()[0], "zdot of a disabled LinearBushing is not computed by realize(Acceleration): history State " + S(s.getZDot()[0]) + " (stale), fresh State " + S(f.getZDot()[0]) + " (whatever was in the cache)");
 }
 
+void directedNullConstraintMultipliers(pbt::Ctx& ctx) {
+    MultibodySystem sys; SimbodyMatterSubsystem matter(sys); GeneralForceSubsystem forces(sys);
+    Body::Rigid body(MassProperties(1, Vec3(0.1, 0, 0), Inertia(1)));
+    MobilizedBody::Pin pin(matter.Ground(), Transform(), body, Transform());
+    Force::Gravity grav(forces, matter, Vec3(0, -9.8, 0));
+    Constraint::Ball ball(matter.Ground(), Vec3(0), pin, Vec3(0));          // a point on the pin axis: all three rows of G vanish
+    sys.realizeTopology();
+    Vector lam[2];
+    for (int k = 0; k < 2; ++k) {   // two fresh States with the same values; only the fill pattern of newly malloc'ed memory differs (glibc M_PERTURB)
+        mallopt(M_PERTURB, k == 0 ? 0x55 : 0xAA);
+        State f = sys.getDefaultState(); pin.setQ(f, 0.3); sys.realize(f, Stage::Acceleration); lam[k] = f.getMultipliers();
+        mallopt(M_PERTURB, 0);
+    }
+    ctx.desc << "Pin + Gravity + Ball(Ground,(0,0,0),body,(0,0,0)): multipliers after realize(Acceleration) with fresh heap memory filled with 0xAA: " << lam[0] << ", with 0x55: " << lam[1] << "\n";
+    bool same = lam[0].size() == 3 && lam[1].size() == 3; for (int i = 0; same && i < 3; ++i) same = memcmp(&lam[0][i], &lam[1][i], sizeof(Real)) == 0;
+    ctx.check(same, "multipliers of a rank-0 constraint set are uninitialised memory: " + S(lam[0][0]) + "," + S(lam[0][1]) + "," + S(lam[0][2]) + " vs " + S(lam[1][0]) + "," + S(lam[1][1]) + "," + S(lam[1][2]) + " for identical state values");
+}
+
 pbt::Config config() {
     pbt::Config c; c.prop = "C16"; c.K = mbgen::K; c.minUnits = 1;
-    c.quick = {2000, 20000, 60, 25}; c.thorough = {20000, 100000, 72, 150};
+    c.quick = {2000, 12000, 60, 20}; c.thorough = {20000, 100000, 72, 100};
     c.rule = "rapidcheck tape -> one model (mbgen tree 1..6 bodies without Weld, some locked by default; 1..8 forcegen force elements incl. all position-only/cached ones, Gravity, LinearBushing; 0..3 constraints Rod/Ball/ConstantSpeed) and a history of <= 40 operations on one State (force parameter setters, force/constraint enable/disable, setSpeed, q/u/z/time changes, realize(stage k), lock/lockAt/unlock, Euler toggle, query); at each query and at the end all Acceleration-stage results are compared with a fresh State given the same values. Non-trivial: the history contains a value change made when the State was realized at or above the stage that change invalidates (followed by the final realization); distinct by tape hash.";
     c.assumptions = {"q,u,z,t and lock values are read back from the history State (they are its current values); force parameters come from the model of the public setters", "comparison tolerance 1e-12 x group scale (observed: bitwise equal apart from denormal noise; both-NaN counts as equal)",
                      "Weld mobilizers are excluded (constraints between relatively immobile bodies are C08's finding)"};
     c.directed = {{"mls-stale-cache", "mls-stale-cache", directedMlsStale}, {"gravity-exclude-ground-nan", "gravity-exclude-ground-nan", directedGravityGroundNaN},
-                  {"disabled-force-zdot-stale", "disabled-force-zdot-stale", directedDisabledBushingZDot}};
+                  {"disabled-force-zdot-stale", "disabled-force-zdot-stale", directedDisabledBushingZDot},
+                  {"null-constraint-multipliers", "null-constraint-multipliers-uninitialized", directedNullConstraintMultipliers}};
     c.requiredLabels = {"change-after-realize", "op:query", "op:lock", "op:lockAt", "op:unlock", "op:toggle-euler", "op:constraint-enable", "op:constraint-disable", "op:constraint-setSpeed", "op:force-disable", "op:force-enable",
                         "op:set-q", "op:set-u", "op:set-time", "op:set-z", "op:MobilityLinearSpring.setStiffness", "op:Gravity.setMagnitude", "op:Gravity.setBodyIsExcluded", "op:LinearBushing.setStiffness", "op:DiscreteForces.addForceToBodyPoint",
                         "constraint:Rod", "constraint:Ball", "constraint:ConstantSpeed", "lock-by-default", "force:TwoPointLinearSpring", "force:TwoPointConstantForce", "force:ConstantForce", "force:ConstantTorque", "force:MobilityLinearSpring"};
